@@ -106,12 +106,14 @@ def sendReply (cid : Option String) (id : JVal) (cast : Bool) (status errno body
   | none => pure ()
   | some c => if cast || a.ctlClosed then pure () else emit (.rep c id status errno body)
 
+def setClosed : M Unit := modA fun a => { a with ctlClosed := true, pubClosed := true }
+
 /-- `Arbiter.stop_controller_and_close_sockets` -/
 def stopController : M Unit := do
   let a ← getA
   if !a.ctlClosed then emit (.close "ctrl")
   if !a.pubClosed then emit (.close "evpub")
-  modA fun a => { a with ctlClosed := true, pubClosed := true }
+  setClosed
 
 def enqueue (r : Ready) : M Unit := modS fun s => { s with ready := s.ready ++ [r] }
 
